@@ -69,15 +69,18 @@ Proof.
   - cbn in He. subst e. cbn [app gsm_decode_loop rbind].
     destruct (gsm_decode_loop Strict b false); reflexivity.
   - cbn [app gsm_decode_loop]. unfold decode_char.
-    assert (final_esc t (x =? ESCAPE) = false) as Ht.
-    { destruct t as [|y t']; [cbn in *; exact He|exact He]. }
-    destruct (Z.eqb_spec x ESCAPE) as [Ex|Ex].
-    + apply IH. exact Ht.
-    + destruct e.
-      * cbv iota. rewrite (IH false Ht).
-        destruct (gsm_decode_loop Strict t false) as [r|]; cbn [rmap rbind]; [|reflexivity].
-        destruct (gsm_decode_loop Strict b false); reflexivity.
-      * destruct (lookup x gsm_basic_decode_map); [|reflexivity]. rewrite (IH false Ht).
+    (* whatever follows, the state after x is "escaped" only if x is an escape code read in the unescaped state; the last octet of the
+       chunk is no escape code, so the chunk never ends in that state *)
+    assert (forall e', (t = [] -> e' = false) -> final_esc t e' = false) as Hnext.
+    { intros e' Hnil. destruct t as [|y t']; [cbn; apply Hnil; reflexivity|exact He]. }
+    destruct e.
+    + (* escaped: x is read through the extension table (or gives the placeholder), the state is unescaped afterwards *)
+      cbv iota. rewrite (IH false (Hnext false (fun _ => eq_refl))).
+      destruct (gsm_decode_loop Strict t false) as [r|]; cbn [rmap rbind]; [|reflexivity].
+      destruct (gsm_decode_loop Strict b false); reflexivity.
+    + destruct (Z.eqb_spec x ESCAPE) as [Ex|Ex].
+      * cbv iota. apply IH. apply Hnext. intros ->. cbn in He. rewrite Ex, Z.eqb_refl in He. discriminate.
+      * destruct (lookup x gsm_basic_decode_map); [|reflexivity]. rewrite (IH false (Hnext false (fun _ => eq_refl))).
         destruct (gsm_decode_loop Strict t false) as [r|]; cbn [rmap rbind]; [|reflexivity].
         destruct (gsm_decode_loop Strict b false); reflexivity.
 Qed.
